@@ -12,6 +12,9 @@ Correspondence (flavour D):
   D. EngineBuilder.set_epochs / set_duration + build(): the schedule the builder holds and the chunk
      length it hands to the Engine vs builder_set_epochs / builder_set_duration; strata with large
      common divisors (1001, 1125, 1500, 2250, 3006, 4096, 5000, ...), mixed epoch types, invalid schedules.
+  G. ONE EngineBuilder driven by a script set_epochs / set_duration / build / set_... / build: every build must hand
+     the Engine the schedule set last and the gcd chunk of THAT schedule (model: brun); real engines of one
+     re-used builder sample their schedules to the end (part F histories).
   E. EpochState: to_state / advance_time / time_left vs the model.
   F. a few real engines (RWKernel) built from large-gcd schedules sample all epochs; number of
      posterior draws vs the model's chunk loop.
@@ -704,6 +707,204 @@ def oracle_d(c):
 
 
 # ---------------------------------------------------------------------------------------------
+# part G: one builder, a script of setter / build calls
+DUR_NAMES = ["warmup_duration", "posterior_duration", "term_duration", "thinning_posterior", "thinning_warmup"]
+
+
+def dur_args(pos, kw):
+    full = {"term_duration": 50, "thinning_posterior": 1, "thinning_warmup": 1}   # documented defaults
+    full.update(dict(zip(DUR_NAMES, pos)))
+    full.update(kw)
+    return [full[n] for n in DUR_NAMES]
+
+
+def script_run(ops):
+    """ops: ["E", cfgs] = set_epochs, ["D", pos, kw] = set_duration, ["B"] = build (Engine constructor
+    replaced by a spy), all on ONE EngineBuilder.  Events: ["set", accepted, text], ["built", schedule held
+    by the builder before build(), schedule handed to the Engine, jitted_sample_duration], ["error", text]"""
+    import liesel.goose as gs
+    import liesel.goose.builder as gb
+    EpochConfig, _, EpochType, _ = _imports()
+    sig = inspect.signature(gb.Engine.__init__)
+    b = gs.EngineBuilder(seed=1, num_chains=1)
+    b.set_model(gs.DictInterface(lambda s: 0.0))
+    b.set_initial_values({"x": 0.0})
+    events = []
+    for op in ops:
+        if op[0] == "B":
+            got = {}
+
+            def spy(*a, **kw):
+                got.update(sig.bind(None, *a, **kw).arguments)
+                return None
+            try:
+                held = snap(b.epochs)
+                with mock.patch.object(gb, "Engine", spy):
+                    b.build()
+                events.append(["built", held, snap(got["epoch_configs"]), int(got["jitted_sample_duration"])])
+            except Exception as ex:
+                events.append(["error", f"{type(ex).__name__}: {ex}"])
+            continue
+        try:
+            if op[0] == "E":
+                b.set_epochs([EpochConfig(EpochType(t), d, th, None) for (t, d, th) in op[1]])
+            else:
+                b.set_duration(*op[1], **op[2])
+            events.append(["set", True, ""])
+        except Exception as ex:     # the class of the rejection is not compared
+            events.append(["set", False, f"{type(ex).__name__}: {ex}"])
+    return events
+
+
+def rand_sched(rnd):
+    g = rnd.choice([rnd.randint(2, 60), rnd.randint(2, 60), 25, 10, 7, rnd.randint(61, 999), rnd.choice(BIG_GCDS)])
+    while True:
+        cs = big_schedule(rnd, g)
+        if valid_text(cs):
+            return cs
+
+
+def rand_dur_call(rnd, admissible=True):
+    if admissible:
+        t = rnd.choice([50, 16, 25, rnd.randint(1, 200)])
+        w = 100 + t + rnd.randint(0, 900)
+        thp = rnd.choice([1, 1, 2, 4])
+        p = thp * rnd.randint(1, 300)
+        thw = rnd.choice([1, 1, 1, 2, 5]) if t >= 5 else 1
+    else:
+        w, p, t, thp, thw = rnd.choice([(19, 10, 1, 1, 1), (120, 100, 50, 1, 1), (400, 101, 50, 2, 1), (400, 100, 50, 1, 26)])
+    if rnd.random() < 0.5:
+        return [[w, p, t, thp, thw], {}]
+    return [[w, p], {"term_duration": t, "thinning_posterior": thp, "thinning_warmup": thw}]
+
+
+def part_g(ctx, rnd):
+    I = (0, 1, 1)
+    scripts = [
+        [["E", [I, (1, 50, 1), (3, 25, 1), (4, 100, 1)]], ["B"], ["E", [I, (1, 30, 1), (3, 20, 1), (4, 40, 1)]], ["B"],
+         ["D", [], {"warmup_duration": 200, "posterior_duration": 64, "term_duration": 16}], ["B"]],
+        [["D", [1000, 1000], {}], ["B"], ["E", [I, (3, 2250, 1), (4, 4500, 1)]], ["B"], ["B"],
+         ["E", [I, (4, 1001, 7)]], ["B"]],
+        [["E", [I, (4, 3006, 1)]], ["B"], ["E", [(4, 3, 1)]], ["B"], ["D", [19, 10], {}], ["B"],
+         ["E", [I, (4, 1002, 1)]], ["B"]],
+        [["E", [I, (2, 12, 1), (4, 18, 3)]], ["B"], ["E", [I, (2, 24, 1), (4, 36, 3)]], ["B"],
+         ["E", [I, (2, 8, 1), (4, 20, 5)]], ["B"], ["E", [I]], ["B"]],
+    ]
+    for _ in range(60 if ctx.quick else 800):
+        ops = [["E", rand_sched(rnd)] if rnd.random() < 0.7 else ["D"] + rand_dur_call(rnd)]
+        for _ in range(rnd.randint(2, 8)):
+            r = rnd.random()
+            if r < 0.42:
+                ops.append(["B"])
+            elif r < 0.72:
+                ops.append(["E", rand_sched(rnd)])
+            elif r < 0.80:     # a schedule the manager rejects: the previous one stays
+                cs = rand_sched(rnd)
+                k = rnd.randrange(len(cs))
+                t, d, th = cs[k]
+                cs[k] = rnd.choice([(t, 0, th), (t, d, d + 1), (t, d, 0), (0, d, th) if k else (4, d, th)])
+                ops.append(["E", cs])
+            else:
+                ops.append(["D"] + rand_dur_call(rnd, admissible=rnd.random() < 0.75))
+        if ops[-1] != ["B"]:
+            ops.append(["B"])
+        scripts.append(ops)
+    cases = [{"part": "G", "script": ops, "events": script_run(ops)} for ops in scripts]
+    ctx.count(len(cases), len({str(c["script"]) for c in cases}))
+    ctx.hist("G.builder_scripts", len(cases))
+    ctx.hist("G.builds", sum(1 for c in cases for e in c["events"] if e[0] == "built"))
+    nre, nnm = 0, 0
+    for c in cases:
+        prev = None
+        for e in c["events"]:
+            if e[0] == "built":
+                if prev is not None and e[2] != prev[2]:
+                    nre += 1
+                    if any(d % prev[3] for (_, d, _) in e[2][1:]):
+                        nnm += 1
+                prev = e
+    ctx.hist("G.builds_after_schedule_change", nre)
+    ctx.hist("G.builds_where_previous_chunk_would_not_divide", nnm)
+    ctx.hist("G.rejected_setters", sum(1 for c in cases for e in c["events"] if e[0] == "set" and not e[1]))
+    ctx.sample(cases[0])
+    return cases
+
+
+def emit_g(ctx, cases):
+    def op(o):
+        if o[0] == "B":
+            return "BBuild"
+        if o[0] == "E":
+            return f"(BSetEpochs {lst(cfg_lit(*e) for e in o[1])})"
+        return "(BSetDuration " + " ".join(zlit(x) for x in dur_args(o[1], o[2])) + ")"
+
+    def ev(e):
+        if e[0] == "set":
+            return f"(ESet {blit(e[1])})"
+        if e[0] == "built":
+            return f"(EBuilt {lst(cfg_lit(*x) for x in e[2])} {zlit(e[3])})"
+        return "EBuildError"
+
+    out = []
+    for k in range(0, len(cases), 200):
+        part = cases[k:k + 200]
+        body = lst("(" + lst(op(o) for o in c["script"]) + ", " + lst(ev(e) for e in c["events"]) + ")" for c in part)
+        txt = HEADER + f"""
+Definition cases : list (list bop * list bevent) := {body}.
+Lemma shard_ok : forallb agrees_script cases = true.
+Proof. vm_compute. reflexivity. Qed.
+"""
+        out.append(ctx.new_shard(txt, f"cases_G{k // 200}"))
+    return out
+
+
+def oracle_g(c):
+    """every engine that is built gets the schedule that was set last (and accepted) and a chunk length
+    that divides every epoch duration of THAT schedule"""
+    cur, k = None, 0
+    for o, e in zip(c["script"], c["events"]):
+        k += 1
+        if o[0] == "E":
+            cs = [tuple(x) for x in o[1]]
+            if valid_text(cs) != e[1]:
+                return {"why": f"EngineBuilder.set_epochs {'accepts' if e[1] else 'rejects'} a schedule that is "
+                               f"{'valid' if valid_text(cs) else 'invalid'} (builder used for several builds)",
+                        "script": c["script"][:k]}
+            if e[1]:
+                cur = cs
+        elif o[0] == "D":
+            w, p, t, thp, thw = dur_args(o[1], o[2])
+            adm = (w >= 20 and 100 + t <= w and min(t, p) >= 1 and 1 <= thw <= min(25, t) and thp >= 1 and p % thp == 0)
+            if adm and not e[1]:
+                return {"why": "EngineBuilder.set_duration rejects an admissible argument combination: " + e[2],
+                        "script": c["script"][:k]}
+            if e[1]:
+                cur = ("duration", w, p, thp)
+        else:
+            if cur is None:
+                continue
+            if e[0] != "built":
+                return {"why": "EngineBuilder.build() fails on a builder that holds a valid schedule: " + e[1],
+                        "script": c["script"][:k]}
+            r = [tuple(x) for x in e[2]]
+            if isinstance(cur, list):
+                good = r == cur and [tuple(x) for x in e[1]] == cur
+            else:
+                _, w, p, thp = cur
+                good = (valid_text(r) and sum(x[1] for x in r if x[0] in (1, 2, 3)) == w and r[-1] == (4, p, thp)
+                        and sum(1 for x in r if x[0] == 4) == 1)
+            if not good:
+                return {"why": "a re-used builder does not hand the schedule that was set last to the engine",
+                        "script": c["script"][:k], "engine_gets": r}
+            ds = [d for (_, d, _) in r[1:]]
+            if ds and (e[3] < 1 or any(d % e[3] for d in ds)):
+                return {"why": "JIT chunk length does not divide every epoch duration of the schedule the engine is built "
+                               "with (builder re-used after an earlier build)", "script": c["script"][:k],
+                        "chunk": e[3], "durations": ds}
+    return None
+
+
+# ---------------------------------------------------------------------------------------------
 # part E: EpochState
 def state_run(cf, n, tb, bys):
     EpochConfig, _, EpochType, _ = _imports()
@@ -780,6 +981,29 @@ def engine_run(cs):
         return f"{type(ex).__name__}: {ex}"
 
 
+def engine_history_run(hist):
+    """ONE builder (RWKernel): for every schedule of the history set_epochs, build, sample all epochs;
+    per step the number of posterior draws or a string describing the exception"""
+    import jax.numpy as jnp
+    import liesel.goose as gs
+    EpochConfig, _, EpochType, _ = _imports()
+    b = gs.EngineBuilder(seed=1, num_chains=1)
+    b.set_model(gs.DictInterface(lambda ms: -0.5 * ms["x"] ** 2))
+    b.set_initial_values({"x": jnp.array(0.5)})
+    b.add_kernel(gs.RWKernel(["x"]))
+    b.show_progress = False
+    out = []
+    for cs in hist:
+        try:
+            b.set_epochs([EpochConfig(EpochType(t), d, th, None) for (t, d, th) in cs])
+            e = b.build()
+            e.sample_all_epochs()
+            out.append(int(e.get_results().get_posterior_samples()["x"].shape[1]) if any(t == 4 for (t, _, _) in cs) else 0)
+        except Exception as ex:
+            out.append(f"{type(ex).__name__}: {ex}")
+    return out
+
+
 def part_f(ctx, rnd):
     scheds = [[(0, 1, 1), (3, 2250, 1), (4, 4500, 1)], [(0, 1, 1), (4, 3006, 1)],
               [(0, 1, 1), (1, 2002, 7), (4, 1001, 7)], [(0, 1, 1), (1, 30, 1), (3, 45, 1), (4, 60, 2)]]
@@ -787,6 +1011,16 @@ def part_f(ctx, rnd):
         g = rnd.choice(BIG_GCDS + [rnd.randint(1001, 3000) | 1])
         scheds.append(big_schedule(rnd, g, n=rnd.randint(1, 3)))
     cases = [{"part": "F", "engine": cs, "obs": engine_run(cs)} for cs in scheds]
+    # one builder re-used: the later schedules are not multiples of the earlier chunk lengths
+    hists = [[[(0, 1, 1), (1, 50, 1), (3, 25, 1), (4, 100, 1)], [(0, 1, 1), (1, 30, 1), (3, 20, 1), (4, 40, 1)]],
+             [[(0, 1, 1), (4, 2250, 1)], [(0, 1, 1), (3, 1001, 1), (4, 2002, 2)], [(0, 1, 1), (4, 36, 3)]]]
+    for _ in range(0 if ctx.quick else 8):
+        hists.append([rand_sched(rnd) for _ in range(rnd.randint(2, 3))])
+    for h in hists:
+        obs = engine_history_run(h)
+        for k, cs in enumerate(h):
+            cases.append({"part": "F", "engine": cs, "obs": obs[k], "history": h[:k + 1]})
+    ctx.hist("F.engine_runs_on_a_reused_builder", sum(1 for c in cases if len(c.get("history", [])) > 1))
     ctx.count(len(cases), len({str(c["engine"]) for c in cases}))
     ctx.hist("F.engine_runs", len(cases))
     ctx.hist("F.engine_runs_chunk>1000", sum(1 for c in cases if math.gcd(*[d for (_, d, _) in c["engine"][1:]]) > 1000))
@@ -809,8 +1043,12 @@ def oracle_f(c):
     if not valid_text(cs) or len(cs) < 2:
         return None
     if isinstance(c["obs"], str):
-        return {"why": "a valid schedule is accepted by the builder but the engine cannot sample it: " + c["obs"],
-                "engine": cs}
+        v = {"why": "a valid schedule is accepted by the builder but the engine cannot sample it: " + c["obs"], "engine": cs}
+        if c.get("history"):
+            v = {"why": "a builder is re-used (set_epochs, build, sample for each schedule of the history in turn); the "
+                        "last schedule is valid and accepted but its engine cannot sample it: " + c["obs"],
+                 "engine_history": c["history"]}
+        return v
     exp = sum(d // th for (t, d, th) in cs if t == 4)
     if c["obs"] != exp:
         return {"why": f"the engine stored {c['obs']} posterior draws, the schedule asks for {exp}", "engine": cs}
@@ -831,6 +1069,7 @@ def run(ctx) -> int:
     bcases = part_b(ctx, rnd)
     ccases = part_c(ctx, rnd)
     dcases = part_d(ctx, rnd)
+    gcases = part_g(ctx, rnd)
     ecases = part_e(ctx, rnd)
     fcases = part_f(ctx, rnd)
     fails = []
@@ -849,7 +1088,7 @@ def run(ctx) -> int:
         r = oracle_c(c)
         if r:
             fails.append(r)
-    for cases, orc in ((dcases, oracle_d), (ecases, oracle_e), (fcases, oracle_f)):
+    for cases, orc in ((dcases, oracle_d), (gcases, oracle_g), (ecases, oracle_e), (fcases, oracle_f)):
         for c in cases:
             r = orc(c)
             if r:
@@ -867,7 +1106,7 @@ def run(ctx) -> int:
         pa = emit_a(ctx, a)
         pb = emit_b(ctx, bcases)
         pcs = emit_c(ctx, ccases)
-        more = emit_d(ctx, dcases) + [emit_e(ctx, ecases), emit_f(ctx, fcases)]
+        more = emit_d(ctx, dcases) + emit_g(ctx, gcases) + [emit_e(ctx, ecases), emit_f(ctx, fcases)]
         res = ctx.compile_shards([pa, pb] + [p for p, _ in pcs] + more)
         for p, (ok, out) in res.items():
             if not ok:
@@ -902,12 +1141,15 @@ def run(ctx) -> int:
                                  "passes to the Engine constructor (constructor replaced by a spy)")
     ctx.assume.append("C16_stan_valid_and_sums / C16_builder_set_duration_ok: admissible arguments (20 <= w, i+t+b <= w, "
                       "1 <= i,t,b,p, 1 <= thw <= min(i,t,b), 1 <= thp | p); set_duration fixes i = 75, b = 25")
+    ctx.tested_not_proved.append("the builder keeps no epoch-related state besides the schedule set last (model brun): tested by "
+                                 "scripts of set_epochs / set_duration / build on one builder, not derivable from the source tie")
     ctx.assume.append("C16_chunk_positive / C16_builder_epochs_run_to_end: the schedule is valid and has a non-initial epoch")
     ctx.cov["rule"] = ("A: all sequences over the stated alphabet up to max_len (exhaustive; non-trivial = accepted ones, "
                        "each distinct); B: random append/next/has_more interleavings (distinct op lists); "
                        "C: stan_epochs border grid + random arguments (each call repeated after an in-place edit of its result), "
                        "distinct argument tuples; C2: random valid schedules; D: builder set_epochs (large-gcd strata, "
-                       "distinct schedules) / set_duration (distinct calls); E: EpochState runs; F: real engine runs")
+                       "distinct schedules) / set_duration (distinct calls); G: scripts of setter / build calls on one builder "
+                       "(distinct scripts); E: EpochState runs; F: real engine runs, also several on one re-used builder")
     for f in fails[:3]:
         ctx.violation(f["why"], f, True, None)
     if (disagree or not thm_ok or forb) and not fails:
@@ -990,6 +1232,18 @@ def replay(rp) -> int:
     elif "state" in r:
         cf, n, tb, bys = r["state"]
         verdict = oracle_e({"part": "E", "state": [tuple(cf), n, tb, bys], "obs": state_run(tuple(cf), n, tb, bys)})
+    elif "script" in r:
+        ops = r["script"]
+        events = script_run(ops)
+        for o, e in zip(ops, events):
+            print("  ", o, "->", e)
+        verdict = oracle_g({"part": "G", "script": ops, "events": events})
+    elif "engine_history" in r:
+        h = [[tuple(c) for c in cs] for cs in r["engine_history"]]
+        obs = engine_history_run(h)
+        for cs, o in zip(h, obs):
+            print(f"   one builder: set_epochs({cs}); build(); sample_all_epochs() -> {o}")
+        verdict = oracle_f({"part": "F", "engine": h[-1], "obs": obs[-1], "history": h})
     elif "engine" in r:
         cs = [tuple(c) for c in r["engine"]]
         obs = engine_run(cs)
